@@ -5,7 +5,7 @@ import numpy as np
 from .common import guarded, run_model, rats, fracs, close, F
 
 RULE = ("all vectors of length 1..4 over the grid {0,1/4,1/2,3/4,1} (exhaustive in thorough, sampled in quick) "
-        "plus generated vectors of length 1..8 on grids k/(reps+1) in any order; non-trivial = the vector has a "
+        "plus generated vectors of length 1..40 on grids k/(reps+1) in any order and long vectors (32..4097 entries, ties, all p >= 1/n); non-trivial = the vector has a "
         "tie or is not sorted; distinct by vector content and method")
 LEVEL = ("theorems holm_eq_spec / bh_eq_spec / bonferroni_spec (right hypothesis gets the textbook value), "
          "*_ties (tie order irrelevant), adjust_chain_sorted, *_sorted for every vector; model validated "
@@ -22,10 +22,14 @@ def textbook(p, method):
     if method == "bonferroni":
         return [min(Fr(1), n * v) for v in p]
     out = [None] * n
-    if method == "holm-bonferroni":
-        vals = [max(min(Fr(1), (n - j) * s[j]) for j in range(k + 1)) for k in range(n)]
-    else:
-        vals = [min(min(Fr(1), n * s[j] / (j + 1)) for j in range(k, n)) for k in range(n)]
+    if method == "holm-bonferroni":       # running maximum of min(1, (n-j) p_(j))
+        vals, cur = [], Fr(0)
+        for j in range(n):
+            cur = max(cur, min(Fr(1), (n - j) * s[j])); vals.append(cur)
+    else:                                 # running minimum from the top of min(1, n p_(j) / (j+1))
+        vals, cur = [None] * n, Fr(1)
+        for j in range(n - 1, -1, -1):
+            cur = min(cur, min(Fr(1), n * s[j] / (j + 1))); vals[j] = cur
     for k, i in enumerate(order):
         out[i] = vals[k]
     return out
@@ -51,6 +55,14 @@ def gen(ctx):
             v = [ctx.rng.choice(base) for _ in range(n)]
         else:              # small values (multipliers matter)
             v = [Fr(ctx.rng.randint(1, 6), den * 4) for _ in range(n)]
+        vs.append(v)
+    # long vectors (lengths on and just past powers of two), ties and values above 1/n
+    for _ in range(ctx.n(5, 40)):
+        n = ctx.rng.choice([32, 33, 64, 65, 257, 1025, 4097])
+        den = ctx.rng.choice([21, 101, 100003])
+        v = [Fr(ctx.rng.randint(1, den), den) for _ in range(n)]
+        if ctx.rng.random() < 0.4:
+            v = [max(t, Fr(1, n)) for t in v]           # every raw p-value >= 1/n
         vs.append(v)
     return vs
 
@@ -78,8 +90,9 @@ def run(ctx):
             want = textbook(exact, m)
             if len(out) != len(want) or not all(close(a, b) for a, b in zip(out, want)):
                 bad = {"method": m, "returned": out, "textbook": [float(t) for t in want]}; break
-            # equal raw p-values receive equal adjusted values; order preserved
-            for i in range(len(v)):
+            # equal raw p-values receive equal adjusted values; order preserved (pairwise for short vectors; for long ones
+            # the elementwise comparison with the textbook values above already implies both)
+            for i in range(len(v) if len(v) <= 64 else 0):
                 for j in range(len(v)):
                     if exact[i] == exact[j] and out[i] != out[j]:
                         bad = {"method": m, "returned": out, "issue": f"tied p-values {i},{j} get different adjusted values"}
@@ -88,7 +101,8 @@ def run(ctx):
             if bad:
                 break
             res[m] = out
-            ops.append(f"adjust|{m}|{rats(exact)}"); meta.append((m, exact, out))
+            if len(v) <= 300:       # the model sorts by insertion (quadratic)
+                ops.append(f"adjust|{m}|{rats(exact)}"); meta.append((m, exact, out))
         if bad is None and len(res) == 3:
             for i in range(len(v)):
                 chain = [float(exact[i]), res["benjamini-hochberg"][i], res["holm-bonferroni"][i], res["bonferroni"][i], 1.0]
